@@ -188,6 +188,16 @@ def s_dnf(run, tier):
                 yield e2 & e1, p2 & p1, f"({s2}&{s1})"
                 yield e2 | e1, p2 | p1, f"({s2}|{s1})"
 
+        # atoms the reader cannot express: a predicate containing one must not be converted at all, because
+        # ReadParquet._simplify_up REPLACES the Filter by the reader filters (whole predicate or nothing)
+        hard = [(r.x.isin([1, 2]), "isin"), (r.y.isna(), "isna"), (r.x > r.z, "colcol"), (~(r.x == 1), "not")]
+        for he, hname in hard:
+            for i in (0, 1, 4):
+                for e, sname in ((atoms[i] & he, f"(a{i}&{hname})"), (he & atoms[i], f"({hname}&a{i})"), (atoms[i] | he, f"(a{i}|{hname})"), ((atoms[i] & he) | atoms[2], f"((a{i}&{hname})|a2)"), ((atoms[i] | atoms[2]) & he, f"((a{i}|a2)&{hname})"), (he, hname)):
+                    dnf = _DNF.extract_pq_filters(r.expr, e.expr)
+                    run.count("C03.S.DNF:partially-convertible-predicate-not-converted", 1, sname, tier="S", rule="trees containing an atom the reader cannot express (isin, isna, column-vs-column, negation): extract_pq_filters must return no filters")
+                    if dnf._filters is not None:
+                        run.violation("C03.S.DNF:partial-conversion", f"predicate {sname}", f"extract_pq_filters returned {dnf.to_list_tuple()} although the predicate contains `{hname}`, which the reader cannot express; the Filter would be dropped", {"kind": "none"}, tier="S")
         todo = list(trees(1)) + (list(trees(2)) if tier == "thorough" else list(trees(2))[::7])
         # balanced shapes (a op b) op (c op d)
         t1 = list(trees(1))
@@ -197,7 +207,7 @@ def s_dnf(run, tier):
         for e, p, sname in todo:
             dnf = _DNF.extract_pq_filters(r.expr, e.expr)
             for uf in user_filters:
-                comb = _DNF(uf).combine(dnf) if uf is not None else dnf
+                comb = dnf.combine(uf) if uf is not None else dnf  # as ReadParquet._simplify_up does: new filters .combine( existing operand )
                 lt = comb.to_list_tuple() if comb else []
                 got = _eval_dnf(lt, frame)
                 exp = p & (_eval_dnf(uf, frame) if uf is not None else True)
